@@ -26,7 +26,7 @@ CLAIMS = {
  "C04": ("transition-table extraction of _watcher.run and _watchSession.run (loop-carried state read off SSA phis) + value-flow",
          "other", "Decides the structural clauses of watch continuity: frame dispatch, resume at the version of the last event taken, "
          "reconnect re-armed after every session end and never fatal, output channel stable across reconnects and replaced (fresh) only "
-         "by reset, controller re-reads events() each iteration. Server replay and latency are not decided.", "DESIGN.md §5 C04"),
+         "by reset, controller re-reads events() each iteration, a session completes on every path (also when the connect fails) so that the retry is always scheduled. Server replay and latency are not decided.", "DESIGN.md §5 C04"),
  "C05": ("no-spawn / single-sender / who-may-call analysis + shape rules of the distributors and pub/sub run loops",
          "other", "Decides, for all schedules, the structure in-order exactly-once delivery needs: no goroutine on the event path, one "
          "sending function per event channel, distributors are complete single ranges with one delivery per element, the publisher map "
@@ -35,12 +35,12 @@ CLAIMS = {
  "C06": ("transition-table extraction of filterSubscription.run + constructor/accessor value-flow",
          "other", "Decides every step of the filtered-subscription state machine (P/pending/ready/D × isNew/ok/errors) against the "
          "reference table, the constructor flows (private cache built with the filter, deferred variants start from the reject-all "
-         "filter) and the event distribution shape; the drained-state equality follows by induction over steps and is not itself decided.",
+         "filter), the event distribution shape, synchronous in-order hand-over of Refilter requests, and that filter values cannot change under a subscription (constructors copy their arguments); the drained-state equality follows by induction over steps and is not itself decided.",
          "DESIGN.md §5 C06-C08"),
  "C10": ("channel-operation inventory (non-blocking sends, buffer capacities) + blocking classification + who-may-call",
          "other", "Decides that no stage of the event path can be blocked by a consumer: all consumer-facing sends are select-with-default "
          "on buffers of capacity EventBufsiz, hand-off receivers have no blocking operation besides their loop select, callbacks run "
-         "only on the monitor goroutine. Which events drop under overflow is not decided.", "DESIGN.md §5 C10"),
+         "only on the monitor goroutine, and every fan-out loop delivers to every subscriber with no early exit (a full or failed subscriber cannot cut off the others). Which events drop under overflow is not decided.", "DESIGN.md §5 C10"),
  "C11": ("value-flow of stop channels through constructors + who-may-call on Shutdown/Close + linearity of feeding subscriptions",
          "other", "Decides stop-channel wiring downwards, exit-on-parent-close rows of the consumer loops, Events() closed once by its "
          "only sender on exit, Shutdown requested only on the receiver's own lifecycle, every other Close forwarding to the one "
@@ -72,7 +72,7 @@ CLAIMS.update({
  "C08": ("controller/filterSubscription tables (readiness rows) + ready-channel value-flow + who-may-close",
          "other", "Decides when ready channels close (controller: first successful sync only; filtered: only rows that synced the private "
          "cache; deferred ones start from the reject-all filter), that every Ready() hands out that very channel, that only the two run loops "
-         "close it, that distribution needs ready=T and the watcher starts with no channel, and that joins refilter only from callbacks.", "DESIGN.md §5 C06-C08"),
+         "close it, that distribution needs ready=T and the watcher starts with no channel, that a failed first list reaches the controller as a failure (never as an empty list), and that joins refilter only from callbacks.", "DESIGN.md §5 C06-C08"),
  "C09": ("value-flow / shape rules on the generated joins + resource-release path analysis + who-may-close",
          "other", "Decides the join construction (for-filter clone of the destination, all four handler slots, refilter from the full current "
          "source cache at callback time, monitor on the source), that everything created in package join is released on every exit (returned, "
@@ -80,11 +80,11 @@ CLAIMS.update({
  "C14": ("error rows of the controller table + shape rules of the list helpers + containment rules for watch failures",
          "other", "Decides that each list failure kind stops the controller with a cause derived from the failing call, that a deliberate Close "
          "reports nil, that Error() is the lifecycle's error, and that watch failures cannot escalate (watcher initiates shutdown only on request, "
-         "always re-arms a retry; the session touches its connection only after the connect error check).", "DESIGN.md §5 C14"),
+         "always re-arms a retry; the session touches its connection only after the connect error check), and that every subscription reports its end to its publisher exactly once however it ended (the subtree's drain terminates).", "DESIGN.md §5 C14"),
  "C15": ("field confinement (single-owner) + atomic-handler rule + snapshot freshness",
          "other", "A static race-freedom/atomicity argument for all schedules: cache state is touched only on the one run goroutine, each handler "
          "runs to completion inside one select arm, replies carry the handler's own result, List returns a fresh slice of every entry, the map "
-         "never escapes. Caller mutation of the shared objects is outside C15.", "DESIGN.md §5 C15"),
+         "never escapes, and a version that is not newer never replaces the cached one (reads never go backwards: the C01 step tables). Caller mutation of the shared objects is outside C15.", "DESIGN.md §5 C15"),
  "C17": ("method-set enumeration of ComparableFilter implementors + read-set vs compared-set (non-interference) analysis",
          "other", "Decides for every comparable filter type that Equals asserts its own type and compares, with a trusted comparator pairing the "
          "same field on both sides, every part of the receiver that Accept reads; Accept purity; FiltersEqual's table; compareFilterList's "
@@ -95,7 +95,7 @@ CLAIMS.update({
  "C19": ("sibling-shape comparison of the seven PodsFilter + shape rules for the ingress and kind filters",
          "other", "Decides that every workload pods filter sorts a copy of its sources, scopes each element to that source's namespace and uses "
          "selector-or-template-fallback, that the ingress filter collects the default backend and every rule path per ingress independently, and "
-         "the kind guards/field pairing of node, involved-object and selector-match filters. One known finding (RC namespace scoping).", "DESIGN.md §5 C19"),
+         "the kind guards/field pairing of node, involved-object and selector-match filters (presence-checked subset test), and the Accept/constructor shapes of the combinators these filters are built from. One known finding (RC namespace scoping).", "DESIGN.md §5 C19"),
  "C20": ("token-level unification of generated files with their templates + shape rules on the instances + client-go oracle for typed clients",
          "translation_validation", "Validates all 20 generated files against their templates (one consistent ObjectType binding per typed package; "
          "join template instantiated from the generated signature), and decides template robustness (comma-ok, foreign objects skipped, "
